@@ -500,6 +500,29 @@ def run(facts, tier):
         t8.missing_anchor("construction of Header::Negative in the CBOR encoder")
     rules.append(t8.finish())
 
+    # ---------------- T14.9 writers do not drop parts of a value
+    t9 = Rule("T14.9", "the first-party writers never filter the parts of the value they write: no `filter`, `filter_map`, `skip*`, `take*`, `step_by`, `flatten` over an iterator of values/elements "
+              "and no `Option::filter` on an element in the writer modules (a part that does not fit must be an error, as for the other out-of-domain values; dropped silently it does not read back)", floor=40)
+    DROP = re.compile(r"^core::iter::traits::iterator::Iterator::(filter|filter_map|skip|skip_while|take|take_while|step_by|flatten|map_while)$|^core::option::Option::<T>::filter$")
+    VALUEISH = re.compile(r"jaq_json::Val|jaq_fmts::write::xml::Xml|toml_span::|toml::|Value|jaq_fmts::write::tabular::")
+    nb = 0
+    for crate_ in ("jaq_fmts", "jaq_json"):
+        for j_ in facts.mir(crate_):
+            if not re.match(r"^<?(jaq_fmts::write::|jaq_json::write::)", j_["def"]) and not re.match(r"^<?(jaq_fmts::write::|jaq_json::write::)", j_.get("root") or "") or j_.get("test"):
+                continue
+            nb += 1
+            b_ = Body(j_)
+            for i_, t_ in b_.calls():
+                fn_ = t_.get("fn") or ""
+                if DROP.search(fn_):
+                    tys = " ".join(t_.get("gargs") or []) + " " + " ".join(t_.get("argtys") or [])
+                    if VALUEISH.search(tys):
+                        t9.violate(f"drop/{j_['def'].split('::{closure')[0]}/{fn_.split('::')[-1]}", f"`{j_['def']}` applies `{fn_.split('::')[-1]}` to parts of the value being written ({tys[:80]}): what is filtered out is silently missing from the output", where=t_["sp"])
+            t9.examined(j_["def"], False)
+    t9.instances = nb
+    t9.nontrivial = {("bodies", nb)} if nb else set()
+    rules.append(t9.finish())
+
     explanation = ("Full round trips for all values are value-level and not decided (known gaps found by reading are listed in DESIGN.md D8). Decided: the first-party reader and writer tables agree "
                    "(TSV and CSV escapes are mutual inverses, CBOR kinds, XML keys, YAML special literals, domain errors), extracted from the typed HIR.")
     return finish("C14", "other", rules, t0, tier, explanation, ["third-party lexers/encoders (saphyr, xmlparser, ciborium, toml-span) implement their formats"])
